@@ -273,6 +273,11 @@ func init() {
 						}
 						ops = append(ops, world.Op{K: world.KGovParams, Class: ClsGov, Args: map[string]string{"interval": fmt.Sprint(int64(other))}})
 						ops = append(ops, world.Op{K: world.KGovParams, Class: ClsGov, Args: map[string]string{"last": "past"}})
+						if len(denoms) > 1 {
+							// a 100% slash of the only validator holding an asset leaves it without shares but not without stake: it
+							// is still charged
+							ops = append(ops, world.Op{K: world.KSlash, V: 0, F: "1", Class: ClsSlash})
+						}
 					}
 					return ops
 				}
@@ -302,7 +307,7 @@ func init() {
 			bigA := []string{"1000000", "1000000000000000000000000", "3"}
 			if tier == "thorough" {
 				return []*engine.Scenario{
-					govSc([]int{2, 0, 0, 5, 2}, 8),
+					govSc([]int{2, 1, 0, 5, 2}, 8),
 					mk("c09-r0.3-I2u", c09Cfg("0.3", "0", 2*U, false), small, []string{"aaa", "bbb"}, []int{3, 0, 0, 5, 1}, 8, true),
 					mk("c09-r0.5-r0.999999-I1u", c09Cfg("0.5", "0.999999", 1*U, false), []string{"1", "3", "1000"}, []string{"aaa", "bbb"}, []int{3, 0, 0, 5, 0}, 8, false),
 					mk("c09-r1e-6-warmup-I2u", c09Cfg("0.000001", "0", 2*U, true), []string{"3", "1000000"}, []string{"aaa", "ccc"}, []int{3, 0, 0, 5, 0}, 8, false),
@@ -311,7 +316,7 @@ func init() {
 				}
 			}
 			return []*engine.Scenario{
-				govSc([]int{1, 0, 0, 3, 2}, 5),
+				govSc([]int{1, 1, 0, 3, 2}, 5),
 				mk("c09-r0.3-I2u", c09Cfg("0.3", "0", 2*U, false), []string{"1", "3", "1000"}, []string{"aaa"}, []int{3, 0, 0, 4, 1}, 6, true),
 				mk("c09-r0.5-r0.999999-I1u", c09Cfg("0.5", "0.999999", 1*U, false), []string{"2", "1000"}, []string{"aaa", "bbb"}, []int{3, 0, 0, 4, 0}, 6, false),
 				mk("c09-r1e-6-warmup-I2u", c09Cfg("0.000001", "0", 2*U, true), []string{"3", "1000000"}, []string{"aaa", "ccc"}, []int{3, 0, 0, 4, 0}, 6, false),
